@@ -17,7 +17,7 @@
 (* time-out" matters after that, which keeps the state space finite.  A    *)
 (* reply in `net` may be delivered at any later moment (arbitrary delay    *)
 (* and reordering), delivered again (Duplicate) or never (DropReply).      *)
-(* A request that is lost produces no reply (the ReqLost branch of Transmit).  *)
+(* A request that is lost produces no reply (ReqLost branch of Transmit). *)
 (*                                                                         *)
 (* Several bursts run one after the other on the same connection: the      *)
 (* sequence counter and the replies still in the network survive the end   *)
@@ -206,5 +206,4 @@ Terminates == <>(burstNo = NBursts /\ pc # "run")
 \* simulation runs print the environment's choices of every finished behaviour (harness/props/c06.py reads them)
 Emit == (KeepHistory /\ burstNo = NBursts /\ pc # "run")
            => PrintT("INFO|" \o ToString(<<win, maxTries, [i \in 1..Len(hist) |-> hist[i].dl]>>))
-EveryBurstEnds == \A b \in 1..NBursts : <>(burstNo = b /\ pc # "run")
 =============================================================================
